@@ -8,6 +8,7 @@ from __future__ import annotations
 import gc
 import io
 import os
+import posixpath
 import random as _random
 import sys
 import tempfile  # noqa: F401 - imported in the template (its private name generator is replaced in children)
@@ -474,7 +475,7 @@ def gen_base(seed: int, attr_names=None) -> dict:
             files[out_path] = b"#" * rng.choice([5000, 20000])
         elif out_state == "same_as_in":
             # the same file, sometimes through a different spelling
-            out_path = rng.choice([in_path, in_path, "./" + in_path, "zz/../" + in_path])
+            out_path = rng.choice([in_path, in_path, "./" + in_path, "zz/../" + in_path, CWD + "/" + in_path.lstrip("./")])
             if out_path.startswith("zz/"):
                 dirs.add("zz")
         elif out_state == "missing_dir":
@@ -632,6 +633,47 @@ def follow_up(base: dict, res: dict, seed: int):
     d["prog"], d["variant"], d["special"] = prog, variant, special
     d["out_state"] = "longer"  # pre-existing, arbitrary length relative to the new result
     d["fs"] = {"files": files, "dirs": list(base["fs"]["dirs"]), "ro": [], "unreadable": [], "mtimes": mt}
+    return materialise(d)
+
+
+def restart_after_failure(base: dict, failed: dict, res: dict, seed: int, idx: int):
+    """Crash / failure, then restart: a fault-injected run failed and left something behind (a
+    partial OUT, a temporary, a lock or backup file).  A second, fault-free invocation on that tree
+    - the same command line again, or a short program to the same OUT - must again satisfy the
+    property, whatever debris the first one left."""
+    if base["out_mode"] != "file" or base["in_state"] != "present" or res["status"] == 0 or not res["mutations"]:
+        return None
+    if any(it["cls"] in INVALID_CLASSES for it in base["items"]) or base["out_state"] not in ("absent", "shorter", "longer"):
+        return None
+    if base["fs"].get("fifos") or base["fs"].get("links"):
+        return None
+    rng = _random.Random(derive_seed(seed, "restart", idx))
+    d = {k: base[k] for k in ("prop", "out_mode", "in_path", "out_path", "in_state", "roles", "knobs", "parts")}
+    d["seed"] = seed
+    d["plan"] = []
+    files = {}
+    base_by_norm = {SimFS.norm(k): v for k, v in base["fs"]["files"].items()}
+    in_norm = SimFS.norm(base["in_path"])
+    for pth, h in res["final"]["files"].items():
+        rel = pth[len(CWD) + 1:] if pth.startswith(CWD + "/") else pth
+        if h.startswith("#sha256:"):
+            if res["initial"]["files"].get(pth) != h or pth not in base_by_norm:
+                return None
+            h = base_by_norm[pth]
+        files[base["in_path"] if SimFS.norm(rel) == in_norm else rel] = h
+    kind = rng.choice(["same_command", "short_program", "short_program"])
+    prog, variant, special = base["prog"], base["variant"], base["special"]
+    if kind == "short_program":
+        prog, variant, special = rng.choice(["hello", "arith", "ifelse"]), "plain", None
+        files[base["in_path"]] = make_input_bytes(prog, "plain").hex()
+    # what the failed run left behind (not part of the original tree) may be cleaned up, reused or
+    # overwritten by the second run: only files of the original tree are protected
+    d["debris"] = sorted(SimFS.norm(k) for k in files if SimFS.norm(k) not in base_by_norm)
+    d["followup"] = "restart_after_failure:" + kind
+    d["prog"], d["variant"], d["special"] = prog, variant, special
+    d["out_state"] = "longer"
+    dirs = sorted({posixpath.dirname(k) for k in files if "/" in k and not k.startswith("/")} | set(base["fs"]["dirs"]))
+    d["fs"] = {"files": files, "dirs": [x for x in dirs if x], "ro": [], "unreadable": [], "mtimes": {}}
     return materialise(d)
 
 
@@ -886,7 +928,9 @@ def judge(ctx: C16Ctx, desc: dict, res: dict) -> list:
     # files that existed before and are not OUT must be unchanged; new files next to OUT (a
     # backup, a lock file) are not forbidden by the statement
     link_targets = set((initial.get("links") or {}).values())
-    others = [p for p in changed if p != out_p and p in initial["files"] and not (p in link_targets and desc["out_state"].startswith("symlink"))]
+    debris = set(desc.get("debris") or [])
+    others = [p for p in changed if p != out_p and p in initial["files"] and p not in debris
+              and not (p in link_targets and desc["out_state"].startswith("symlink"))]
     if others:
         viol("P1", "other-file-changed", paths=others)
     return V
@@ -987,9 +1031,17 @@ def register(tpl):
                     for k in range(1, res.get("main_lines", 0) + 1):
                         plans.append([{"at": 0, "op": "line", "kind": "SIGINT", "at_line": k}])
                 want_fault_sample = len(agg["samples"]) <= req.get("n_samples", 0) and req.get("n_samples", 0) > 0
+                restart_cands = []
                 for plan in plans:
                     d2 = dict(base, plan=plan)
                     r2, V2 = run_one(d2)
+                    if r2["status"] != 0 and r2["mutations"] and req.get("followups", True) and "seeds" in req:
+                        # debris = bytes left in files that did not exist or were different before
+                        debris = 0
+                        for pth, h in r2["final"]["files"].items():
+                            if r2["initial"]["files"].get(pth) != h:
+                                debris += len(h) // 2 if not h.startswith("#") else 1 << 20
+                        restart_cands.append((debris, len(restart_cands), d2, r2))
                     if want_fault_sample and r2["fired"] and r2["status"] != res["status"]:
                         want_fault_sample = False
                         agg["samples"].append({"seed": seed, "argv": base["argv"], "class": cc, "fault_plan": plan, "fired": r2["fired"],
@@ -1010,6 +1062,22 @@ def register(tpl):
                             probe("interrupted_after_OUT_was_opened")
                     if inv and r2["fired"]:
                         probe("fault_during_invalid_option_run")
+            if req.get("faults", True) and restart_cands:
+                restart_cands.sort(key=lambda t: (-t[0], t[1]))
+                chosen = restart_cands[:2] + restart_cands[-1:]
+                seen_idx = set()
+                for n_r, (debris, idx, d2, r2) in enumerate(chosen):
+                    if idx in seen_idx:
+                        continue
+                    seen_idx.add(idx)
+                    rs = restart_after_failure(base, d2, r2, seed, n_r)
+                    if rs is None:
+                        continue
+                    r4, V4 = run_one(rs)
+                    agg["followups"] = agg.get("followups", 0) + 1
+                    run_digests.append(digest([rs["argv"], r4]))
+                    account(rs, r4, V4, seed)
+                    probe(rs["followup"])
             if req.get("followups", True) and "seeds" in req and seed % 2 == 1:
                 fu = follow_up(base, res, seed)
                 if fu is not None:
